@@ -35,6 +35,9 @@ def gen_tdm(rng, templates=False):
             vals = [float(v) for v in vals]
         else:
             vals = [complex(rng.randrange(-4, 5) / 2, rng.randrange(-4, 5) / 2) for _ in range(n)]
+            if rng.random() < 0.3:
+                # a complex array all of whose entries happen to be real is a complex array all the same
+                vals = [complex(v.real, 0.0) for v in vals]
             txt = ", ".join("%r%s%rj" % (v.real, "+" if v.imag >= 0 else "-", abs(v.imag)) for v in vals)
         lines.append("%s array %s =\n    %s\n" % (ty, pn, txt))
         info["parrays"][pn] = (ty, vals)
@@ -85,7 +88,12 @@ def gen_tdm(rng, templates=False):
                 # redundant brackets or a unary plus around the whole reference do not change what it denotes
                 pos.append(rng.choice([pn, pn, pn, "(%s)" % pn, "+%s" % pn]))
                 info["uses"].append(("pos", pn))
-            elif plike and r < 0.58:
+            elif pnames and r < 0.56:
+                # an ELEMENT of a p-array is a number like any other array element
+                pn = rng.choice(pnames)
+                n_el = len(info["parrays"][pn][1]) if pn in info["parrays"] else 1
+                pos.append("%s[%d]" % (pn, rng.randrange(n_el)))
+            elif plike and r < 0.6:
                 pos.append(plike)
             elif "x" in info["scalars"] and r < 0.65:
                 pos.append("x")
@@ -114,6 +122,10 @@ def gen_tdm(rng, templates=False):
     if rng.random() < 0.3 and pnames:
         ops.append("for int m in 0:2\n    Rgate(%s, m) | m" % rng.choice(pnames))
         info["uses"].append(("loop", pnames[0]))
+    if rng.random() < 0.2 and info["parrays"]:
+        pn = rng.choice(sorted(info["parrays"]))
+        if len(info["parrays"][pn][1]) >= 2:
+            ops.append("for int m in 0:2\n    Rgate(%s[m]) | m" % pn)
     opts = rng.choice(["", " (temporal_modes=3)", " (temporal_modes=2, copies=1)"])
     text = "name t\nversion 1.0\n" + rng.choice(["", "target TD2 (shots=10)\n"]) + "type tdm%s\n\n" % opts + "".join(lines) + "\n" + "\n".join(ops) + "\n"
     for pn, w in info["symbolic_parrays"].items():
